@@ -487,10 +487,9 @@ class Interp:
                 return apps[0][1][0], extra
             return None
         if it[0] == "comp" and it[1] in ("list", "gen") and len(it[3]) == 1 and len(it[2]) == 1:
+            # `[f(x) for x in A if P(x)]` is the list built by `for x in A: if P(x): append(f(x))`
             glid, git, conds = it[3][0]
-            elt = it[2][0]
-            if elt == ("elem", git, glid):
-                return elt, (("inloop", glid),) + tuple(conds)
+            return it[2][0], (("inloop", glid),) + tuple(conds)
         if it[0] == "call" and it[1] in ("builtins.list", "builtins.tuple", "builtins.iter") \
                 and len(it[2]) == 1:
             return self._iter_source(it[2][0])
